@@ -59,7 +59,9 @@ def value_to_json(value: object) -> object:
         try:
             value.encode("utf-8")
         except UnicodeEncodeError:
-            return {"string": repr(value)}
+            # ascii() and not repr(): what repr() escapes depends on the Unicode version of
+            # the interpreter, and the document should not
+            return {"string": ascii(value)}
         return value
     if value == ...:
         return {"type": "ellipsis"}
